@@ -139,6 +139,86 @@ fn facade_resolve_entrypoints_3() {
     assert!(base.as_bytes() == base_txt);
 }
 
+/// media-type characters of the data URL scanner, restated independently (RFC 2397 subset used by the crate)
+fn is_mt(c: u8) -> bool {
+    c.is_ascii_alphanumeric() || matches!(c, b'/' | b'!' | b'#' | b'$' | b'&' | b'-' | b'+' | b'^' | b'_' | b'.')
+}
+
+/// independent oracle: shape 'data:' media-type [';base64'] ',' data   -> (media_type_end, base64, data_start)
+fn data_shape(s: &[u8]) -> Option<(usize, bool, usize)> {
+    if s.len() < 5 || &s[..5] != b"data:" { return None; }
+    let mut i = 5;
+    while i < s.len() {
+        let c = s[i];
+        if c == b',' { return Some((i, false, i + 1)); }
+        if c == b';' {
+            return if s.len() >= i + 8 && &s[i + 1..i + 8] == b"base64," { Some((i, true, i + 8)) } else { None };
+        }
+        if !is_mt(c) { return None; }
+        i += 1;
+    }
+    None
+}
+
+fn data_text<const N: usize>() -> ([u8; N], usize) {
+    let (mut b, n) = any_ascii::<N>();
+    kani::assume(n >= 5);
+    b[0] = b'd'; b[1] = b'a'; b[2] = b't'; b[3] = b'a'; b[4] = b':';
+    (b, n)
+}
+
+/// C18: the scanner accepts exactly the shape, and the borrowed form (re-scans) and the owned form (stored offsets)
+/// report the same media type / base64 flag / data, which reassemble the text.
+/// Bound: 'data:' + up to 7 ASCII bytes (no ';base64,' fits: covers the plain branch and every rejection).
+#[kani::proof]
+#[kani::unwind(14)]
+fn dataurl_views_plain_12() {
+    let (b, n) = data_text::<12>();
+    let s = &b[..n];
+    let st = unsafe { std::str::from_utf8_unchecked(s) };
+    let parts = uri::data::DataUrlPartsRef::parse(st);
+    let sh = data_shape(s);
+    assert!(parts.is_some() == sh.is_some());
+    if let (Some(p), Some((mte, b64, ds))) = (parts, sh) {
+        assert!(p.base_64 == b64);
+        assert!(p.data.as_bytes() == &s[ds..]);
+        assert!(p.media_type.map(|m| m.as_bytes()) == if mte > 5 { Some(&s[5..mte]) } else { None });
+        // borrowed form: accessors re-scan the text
+        let d = unsafe { uri::data::DataUrl::new_unchecked(s) };
+        assert!(d.media_type() == p.media_type);
+        assert!(d.is_base_64_encoded() == p.base_64);
+        assert!(d.encoded_data() == p.data);
+        // reassembly
+        let ml = p.media_type.map_or(0, |m| m.len());
+        assert!(5 + ml + (if p.base_64 { 7 } else { 0 }) + 1 + p.data.len() == s.len());
+    }
+}
+
+/// same with the ';base64,' marker: 'data:' + media type of up to 2 bytes + ';' + 7 free bytes + up to 2 data bytes
+#[kani::proof]
+#[kani::unwind(20)]
+fn dataurl_views_base64_17() {
+    let (b, n) = data_text::<17>();
+    let s = &b[..n];
+    // steer to the ';' branch: a ';' within the first three bytes after 'data:'
+    kani::assume(n >= 6 && (b[5] == b';' || (n >= 7 && is_mt(b[5]) && (b[6] == b';' || (n >= 8 && is_mt(b[6]) && b[7] == b';')))));
+    let st = unsafe { std::str::from_utf8_unchecked(s) };
+    let parts = uri::data::DataUrlPartsRef::parse(st);
+    let sh = data_shape(s);
+    assert!(parts.is_some() == sh.is_some());
+    if let (Some(p), Some((mte, b64, ds))) = (parts, sh) {
+        assert!(b64 && p.base_64);
+        assert!(p.data.as_bytes() == &s[ds..]);
+        assert!(p.media_type.map(|m| m.as_bytes()) == if mte > 5 { Some(&s[5..mte]) } else { None });
+        let d = unsafe { uri::data::DataUrl::new_unchecked(s) };
+        assert!(d.media_type() == p.media_type);
+        assert!(d.is_base_64_encoded() == p.base_64);
+        assert!(d.encoded_data() == p.data);
+        let ml = p.media_type.map_or(0, |m| m.len());
+        assert!(5 + ml + 7 + 1 + p.data.len() == s.len());
+    }
+}
+
 // C08 (Eq / Ord / Hash coherence): harnesses through Hash / PctStr (percent-decoding + utf8-decode loops)
 // did not finish within 10 minutes even for 2-byte inputs (measured twice); the property is listed
 // under not_applicable.
